@@ -257,6 +257,8 @@ def random_case(rng):
         # the labels refer to a plain media file (an .mp4 opened by sleap-io: MediaVideo backend, no HDF5 dataset), the
         # usual case for predictions made on a video
         opts["media_video"] = True
+    if rng.random() < 0.3:
+        opts["stale_hidden"] = True       # missing nodes keep stale coordinates, flagged not visible
     return new_case(frames, N, opts, tag=mode + ("-ties" if ties else ""))
 
 
